@@ -185,9 +185,14 @@ def gen_asset(rng, name, ne, nh, shape, off, out_types=None, n_max=9, y0=None):
     if shape == "fully_sold":
         t = times[-1]
         for acct in sorted(a for a, b in bal.items() if b > 0):
-            t += rng.range(1, 40) * DAY + rng.below(3600) * 1_000_000 + 1_000_000
-            outs.append({"ts": [t, off], "exch": acct[0], "holder": acct[1], "type": "SELL", "spot": rng.choice(PRICES),
-                         "crypto_out_no_fee": bal[acct], "crypto_fee": 0})
+            # sold out in three disposals (equal thirds when possible): a lot consumed by several events in proportions
+            # that are not exact decimals leaves sold percentages that add up to 0.999..9, not 1
+            b = bal[acct]
+            parts = [b // 3, b // 3, b - 2 * (b // 3)] if b >= 3 else [b]
+            for part in parts:
+                t += rng.range(1, 40) * DAY + rng.below(3600) * 1_000_000 + 1_000_000
+                outs.append({"ts": [t, off], "exch": acct[0], "holder": acct[1], "type": "SELL", "spot": rng.choice(PRICES),
+                             "crypto_out_no_fee": part, "crypto_fee": 0})
             bal[acct] = 0
     return {"asset": name, "ins": ins, "outs": outs, "intras": intras}
 
